@@ -57,10 +57,14 @@ def suites(tier: str, seed: int) -> List[Suite]:
         return [site, hist]
     if tier == "quick":
         plan = [("valid", "small", 8), ("valid", "medium", 22), ("valid", "deep", 6), ("errors", "small", 6),
-                ("max-servings", "small", 4), ("errors", "medium", 6), ("f12", "small", 3), ("valid", "bigM", 5), ("title-with-scaled-value", "small", 2)]
+                ("max-servings", "small", 4), ("errors", "medium", 6), ("f12", "small", 3), ("valid", "bigM", 5), ("title-with-scaled-value", "small", 2),
+                ("valid", "medium:rm", 4), ("valid", "small:wsrm", 2), ("empty-recipe-block", "small", 2),
+                ("multiple-readme-same-name", "small", 1)]
     else:
         plan = [("valid", "small", 300), ("valid", "medium", 1000), ("valid", "deep", 300), ("errors", "small", 200),
-                ("errors", "medium", 200), ("max-servings", "medium", 100), ("f12", "small", 30), ("f12", "medium", 30), ("valid", "bigM", 150), ("title-with-scaled-value", "small", 30)]
+                ("errors", "medium", 200), ("max-servings", "medium", 100), ("f12", "small", 30), ("f12", "medium", 30), ("valid", "bigM", 150), ("title-with-scaled-value", "small", 30),
+                ("valid", "medium:rm", 120), ("valid", "small:wsrm", 60), ("empty-recipe-block", "small", 30),
+                ("multiple-readme-same-name", "small", 20)]
     site.cases = SC.gen_site_cases("C15", seed, plan)
     # the compile cache (recipe_directory.py) must not make a page show a recipe as it was before an edit
     hist.cases = SC.gen_edit_history_cases(seed, 8 if tier == "quick" else 120)
